@@ -140,7 +140,7 @@ var spellings = []spelling{
 	{`db."m"`, func(m string) string { return `prod."` + m + `"` }, true},
 	{"MixedCase", func(m string) string { return "Disk_IO" }, false},
 	{`"MixedCase"`, func(m string) string { return `"Disk_IO"` }, false},
-	{"db . m", func(m string) string { return "prod~.~" + m }, true},
+	{"db . m", func(m string) string { return "prod . " + m }, true},
 	{"db.MixedCase", func(m string) string { return "prod.Disk_IO" }, true},
 }
 
